@@ -25,7 +25,7 @@ pub uninterp spec fn wguard_content<'a, T: ?Sized>(g: &std::sync::RwLockWriteGua
 pub assume_specification<T: ?Sized>[ std::sync::RwLock::<T>::read ](l: &std::sync::RwLock<T>) -> (r: std::sync::LockResult<std::sync::RwLockReadGuard<'_, T>>)
     ensures r is Ok, rguard_content(&r->Ok_0) == lock_content(l);
 pub assume_specification<T: ?Sized>[ std::sync::RwLock::<T>::write ](l: &std::sync::RwLock<T>) -> (r: std::sync::LockResult<std::sync::RwLockWriteGuard<'_, T>>)
-    ensures r is Ok, wguard_content(&r->Ok_0) == lock_content(l);
+    ensures r is Ok, wguard_content(&r->Ok_0) == lock_content(l), lock_after(l) == wguard_final(&r->Ok_0);
 pub assume_specification<'a, 'b, T: ?Sized>[ <std::sync::RwLockReadGuard<'a, T> as core::ops::Deref>::deref ](g: &'b std::sync::RwLockReadGuard<'a, T>) -> (r: &'b T)
     ensures r == rguard_content(g);
 
@@ -44,3 +44,17 @@ pub assume_specification<T: ?Sized>[ std::sync::Mutex::<T>::lock ](l: &std::sync
     ensures r is Ok <==> !mutex_poisoned(l);
 pub assume_specification<'a, 'b, T: ?Sized>[ <std::sync::MutexGuard<'a, T> as core::ops::DerefMut>::deref_mut ](g: &'b mut std::sync::MutexGuard<'a, T>) -> (r: &'b mut T);
 pub assume_specification<'a, 'b, T: ?Sized>[ <std::sync::MutexGuard<'a, T> as core::ops::Deref>::deref ](g: &'b std::sync::MutexGuard<'a, T>) -> (r: &'b T);
+
+// ---- "the write did happen" for RwLock (A11) ---------------------------------------------------------------
+/// prophecy-style oracles: the content of a lock after the verified call returns, and the content a write guard
+/// has when it is dropped. `write()` ties them together; `deref_mut` says the value left behind through the (single)
+/// mutable dereference of a guard is the value it is dropped with. Sound under A11: a write guard is dereferenced
+/// mutably at most once before it is dropped (true for the temporaries of `lock.write()...?.method(..)` chains).
+/// A path that returns without calling `write()` leaves `lock_after` unconstrained, so a postcondition over it
+/// cannot be proved there: this is how an omitted update is detected.
+pub uninterp spec fn lock_after<T: ?Sized>(l: &std::sync::RwLock<T>) -> &T;
+pub uninterp spec fn wguard_final<'a, T: ?Sized>(g: &std::sync::RwLockWriteGuard<'a, T>) -> &'a T;
+/// equality of (possibly unsized) referents
+pub uninterp spec fn same_val<T: ?Sized>(a: &T, b: &T) -> bool;
+pub broadcast axiom fn ax_same_val<T>(a: &T, b: &T)
+    ensures #[trigger] same_val::<T>(a, b) == (*a == *b);
